@@ -691,7 +691,7 @@ def registrations(m, fn, extra, nframes=3, inline=3, hooks_cls=None):
     Context = m.cls('plasTeX.Context', 'Context')
     h = (hooks_cls or RegHooks)(m, Context)
     h.keep = lambda ev: False
-    it = A.Interp(model=m, scope=fn, hooks=h, max_iter=3, exc_edges=False, inline=inline, heap=True)
+    it = A.Interp(model=m, scope=fn, hooks=h, max_iter=3, exc_edges=False, inline=inline, heap=True, precise_exc=True)
     env = ctx_heap(m, nframes)
     for f in env['__frames']:
         f.attrs['__items'] = {}
